@@ -159,6 +159,30 @@ def oracle(ctx):
                 break
     if meta:
         res.samples.append(dict(kind='oracle-case', exec_line=unhx(meta[0][2]), intended_tail=meta[0][3]))
+    # from the unit to the line: the arguments systemd's splitter finds in the user's Exec= / PodmanArgs= (escapes are decoded in both kinds of
+    # quotes and outside them) are the arguments it finds at the end of the generated line
+    UW = ["'tab\\there'", "'a\\x7cb'", '"dq\\tq"', "'it\\'s'", 'bare\\x20word', "'printf \"a\\\\tb\"'", "'sq plain'", '"a b"', "'\\u00e9'", 'plain', "''", "'x\\\\'"]
+    ucases = []
+    for _ in range(120 if ctx.thorough else 40):
+        words = [rnd.choice(UW) for _ in range(rnd.randint(1, 4))]
+        key = rnd.choice(['Exec', 'PodmanArgs'])
+        ucases.append((key, ' '.join(words)))
+    uops = [f'convert\t0\t0\t{hx("/q/u.container")}\t{hx("[Container]" + chr(10) + "Image=localhost/i" + chr(10) + key + "=" + val + chr(10))}' for key, val in ucases]
+    uio = ctx.impl(uops)
+    uwant = ctx.model(['spec_split_args\t' + hx(val) for key, val in ucases])
+    for (key, val), op, a, w in zip(ucases, uops, uio, uwant):
+        import canon as _canon
+        r = _canon.parse_convert(a)[0]
+        if r[0] != 'svc' or not w.startswith('ok ['):
+            continue
+        res.oracle_evals += 1
+        want = [unhx(t) for t in w[4:-1].split(' ') if t]
+        ex = [v for k, v in r[2].get('Service', []) if k == 'ExecStart']
+        b = ctx.model(['spec_split_exec\t' + hx(ex[-1])])[0] if ex else 'none'
+        av = [unhx(t) for t in b[4:-1].split(' ') if t] if b.startswith('ok [') else []
+        ok = (av[-len(want):] == want) if key == 'Exec' else any(av[i:i + len(want)] == want for i in range(len(av)))
+        if want and not ok:
+            res.oracle_failures.append(dict(op=op, input=f'{key}={val}', impl_output=str(av[-8:]), oracle_expectation=f'the arguments systemd reads from the value, {want}, are arguments of the generated line'))
     # the line as it is *written*: a normal run and a dry run of the real binary, the service text read the way systemd reads it (a
     # backslash at the end of a line continues it, joined with one blank) and split — for command lines of every length, the long ones
     # with blanks inside quoted arguments at every position
